@@ -681,6 +681,10 @@ func Project(d *m.Design, a *m.Attr, v value.V, view string) value.V {
 		if !ut.Result || len(ut.Views) == 0 {
 			return Project(d, ut.Attr, v, "default")
 		}
+		if ut.CollectionOf != "" {
+			// a collection renders every element with the collection's view
+			return Project(d, ut.Attr, v, view)
+		}
 		if view == "" {
 			view = "default"
 		}
@@ -810,6 +814,9 @@ func MaskOutsideView(d *m.Design, a *m.Attr, got value.V, view string) value.V {
 		}
 		if !ut.Result || len(ut.Views) == 0 {
 			return MaskOutsideView(d, ut.Attr, got, "default")
+		}
+		if ut.CollectionOf != "" {
+			return MaskOutsideView(d, ut.Attr, got, view)
 		}
 		if view == "" {
 			view = "default"
